@@ -331,6 +331,9 @@ class C18(core.Check):
                         if isinstance(p, str) and len(p) > 1:
                             pool += [p[:-1], p[1:], p + "s"]
                 qkey = r.choice([key, key.upper(), key.capitalize()])
+                if r.random() < 0.08:
+                    # keys nobody has: with a path-like or pattern-like look (no item may be touched, nothing may match)
+                    qkey = r.choice(["metadata.name", key + ".x", "web/" + key, key + "*", key + "[0]", " " + key])
                 if c < 0.4:
                     ops.append(["find", path, qkey, r.choice(pool)])
                 elif c < 0.8:
